@@ -1,6 +1,7 @@
 import VncModel.Update.USpecProofs
 import VncModel.Update.CopyOrder
 import VncModel.Update.Refine
+import VncModel.Leaf.EquivUpdate
 /-!
 # C02 — Clients converge to the framebuffer: no lost, stale or spurious updates
 
@@ -258,3 +259,29 @@ example : WFc cEx := by
 end Refinement
 
 end VncModel.Props.C02
+
+/-! ## T1: the regenerated C leaf functions are the model's functions
+
+The definitions `VncModel.Gen.Leaf.*` are translated from /repo's current C source by
+`tools/c2lean.py` on every run; these theorems are the proof obligations that break when the C
+functions change (see docs/T1.md). -/
+namespace VncModel.Props.C02.T1
+
+/-- the clip prologue of `rfbMarkRectAsModified` as compiled now = `Update.markClip` -/
+theorem code_markClip_eq_model (s : VncModel.Update.Screen) (x1 y1 x2 y2 : Int) :
+    VncModel.Gen.Leaf.rfbMarkRectAsModified_clip x1 y1 x2 y2 s.width s.height = VncModel.Update.markClip s x1 y1 x2 y2 :=
+  VncModel.Leaf.rfbMarkRectAsModified_clip_eq s x1 y1 x2 y2
+/-- the clipping tail of `rectSwapIfLEAndClip` as compiled now = `Update.requestClip` (16-bit wire values) -/
+theorem code_requestClip_eq_model (s : VncModel.Update.Screen) (x y w h : Int)
+    (hx : 0 ≤ x ∧ x < 65536) (hy : 0 ≤ y ∧ y < 65536) (hw : 0 ≤ w ∧ w < 65536) (hh : 0 ≤ h ∧ h < 65536) :
+    VncModel.Leaf.optOfClip (VncModel.Gen.Leaf.rectSwapIfLEAndClip_tail x y w h s.width s.height) = VncModel.Update.requestClip s x y w h :=
+  VncModel.Leaf.rectSwapIfLEAndClip_tail_eq s x y w h hx hy hw hh
+/-- the rectangle `rfbRedrawAfterHideCursor` creates as compiled now = `Update.cursorBox` -/
+theorem code_cursorBox_eq_model (s : VncModel.Update.Screen) (cx cy : Int) :
+    (VncModel.Gen.Leaf.rfbRedrawAfterHideCursor_rect cx cy s.cursor.xhot s.cursor.yhot s.cursor.w s.cursor.h s.width s.height).map
+      (fun r => VncModel.Rgn.Region.rect r.1 r.2.1 r.2.2.1 r.2.2.2) = VncModel.Update.cursorBox s cx cy :=
+  VncModel.Leaf.rfbRedrawAfterHideCursor_rect_eq s cx cy
+/-- `sraRgnCreateRect`'s guard as compiled now: degenerate rectangles give the empty region -/
+theorem code_createRect_guard (x1 y1 x2 y2 : Int) :
+    VncModel.Gen.Leaf.sraRgnCreateRect_guard x1 y1 x2 y2 = (if x1 ≥ x2 ∨ y1 ≥ y2 then none else some (x1, y1, x2, y2)) := rfl
+end VncModel.Props.C02.T1
